@@ -94,6 +94,61 @@ func Seed(cfg *Config, name string) []uint32 {
 			do(Ev(EvTick, 1, 0, 0))
 			deliverAll(0)
 		}
+	case "snap+append-in-flight":
+		// a lagging replica whose leader compacted: the snapshot message has left the leader and was reported
+		// as sent (needs EarlySnapReport), one heartbeat round later the leader probes with an append that
+		// follows the snapshot: both are in flight to the lagging replica
+		deliverOne := func(pred func(m pb.Message) bool) {
+			for j, m := range c.net {
+				if pred(m.m) {
+					do(Ev(EvDeliver, j, 0, 0))
+					return
+				}
+			}
+		}
+		lagID := uint64(cfg.N)
+		do(Ev(EvTimeout, 1, 0, 0))
+		deliverAll(0)
+		do(Ev(EvPropose, 1, 0, 0))
+		deliverAll(lagID)
+		do(Ev(EvPropose, 1, 0, 0))
+		deliverAll(lagID)
+		do(Ev(EvCompact, 1, 0, 0))
+		for {
+			k := -1
+			for j, m := range c.net {
+				if m.m.To == lagID {
+					k = j
+					break
+				}
+			}
+			if k < 0 || len(c.bad) > 0 {
+				break
+			}
+			do(Ev(EvDrop, k, 0, 0))
+		}
+		do(Ev(EvPropose, 1, 0, 0))
+		deliverAll(lagID) // the new entry is committed with the other follower: the append that follows the snapshot carries a commit index beyond it
+		has := func(pred func(m pb.Message) bool) bool {
+			for _, m := range c.net {
+				if pred(m.m) {
+					return true
+				}
+			}
+			return false
+		}
+		isSnap := func(m pb.Message) bool { return m.To == lagID && m.Type == pb.MsgSnap }
+		// the appends built on the optimistic next index are rejected until the leader falls back to a snapshot
+		for round := 0; round < 6 && !has(isSnap); round++ {
+			deliverOne(func(m pb.Message) bool { return m.To == lagID && m.Type == pb.MsgApp })
+			deliverOne(func(m pb.Message) bool { return m.From == lagID && m.Type == pb.MsgAppResp })
+		}
+		// the snapshot was reported as sent: after a heartbeat round the leader probes with the append that follows it
+		for round := 0; round < 4 && has(isSnap) && !has(func(m pb.Message) bool { return m.To == lagID && m.Type == pb.MsgApp && len(m.Entries) > 0 }); round++ {
+			do(Ev(EvTick, 1, 0, 0))
+			deliverOne(func(m pb.Message) bool { return m.To == lagID && m.Type == pb.MsgHeartbeat })
+			deliverOne(func(m pb.Message) bool { return m.From == lagID && m.Type == pb.MsgHeartbeatResp })
+		}
 	case "two-precandidates":
 		// replicas 1 and 2 ran into their election timeouts at the same moment: both are pre-candidates
 		// (or candidates when pre-vote is off) with their requests to everybody still in flight
@@ -226,6 +281,7 @@ func RunSearch(s Search, prop string, workers int, deadline time.Time, col *ev.C
 	cfg.MaxCompact += used.compact
 	cfg.MaxTransfer += used.transfer
 	cfg.MaxUnreach += used.unreach
+	cfg.MaxPair += used.pair
 	if cfg.MaxTick > 0 {
 		cfg.MaxTick += used.tick
 	}
